@@ -19,8 +19,9 @@ LayoutVerdict(e) ==
                ELSE IF e.keys.nested_masks THEN {"Inv_C12_InSlot/nested-subword"} ELSE {"Inv_C12_InSlot"})
          \cup (LET failing == {i \in 1..Len(e.vars) : ~Expected(e.vars[i], e.entries)} IN
                IF failing = {} THEN {}
-               \* the known way this fails: a packed variable that is only ever written
-               ELSE IF \A i \in failing : e.vars[i].kind = "packed" /\ e.vars[i].access = "w"
+               \* the known way this fails: fields of a packed variable that are only ever written, through a left shift
+               ELSE IF \A i \in failing : /\ e.vars[i].kind = "packed"
+                                           /\ \A f \in MissingFields(e.vars[i], e.entries) : WriteOnlyShifted(e.vars[i], f)
                     THEN {"Inv_C04_Expected/packed-write-only"} ELSE {"Inv_C04_Expected"})
          \cup (IF NoPhantom(e.entries, e.keys) THEN {}
                ELSE IF OnlyInValue(e.entries, e.keys) THEN {"Inv_C05_NoPhantom/value-operand"} ELSE {"Inv_C05_NoPhantom"})
